@@ -23,6 +23,7 @@ package keeper
 // C17: VerifyACL succeeds only for the address the ACL names as owner of the parameter
 //@ func (k Keeper) VerifyACL(ctx sdk.Ctx, paramName string, owner sdk.Address) (err sdk.Error)
 //@   props C17
+//@   panics_declared
 //@   requires len(owner) == 20   // C03: a sender is the address of a key
 //@   ensures [owner] err == nil ==> (forall i int :: (0 <= i && i < len(gov.acl) && gov.acl[i].Key == paramName && (forall j int :: 0 <= j && j < i ==> gov.acl[j].Key != paramName)) ==> gov.acl[i].Addr == owner)
 //@   ensures [listed] err == nil ==> !(forall j int :: 0 <= j && j < len(gov.acl) ==> gov.acl[j].Key != paramName)
@@ -32,6 +33,8 @@ package keeper
 // nothing but the params store is in the frame
 //@ func (k Keeper) ModifyParam(ctx sdk.Ctx, aclKey string, paramValue []byte, owner sdk.Address) (res sdk.Result)
 //@   props C17 C11
+//@   panics_keep gov., auth.
+//@   panics_declared
 //@   requires len(owner) == 20
 //@   modifies gov.pval, gov.acl, gov.daoowner, Hm_Str_S_types_Subspace_v, Hmp_Str_S_types_Subspace_v   // k.spaces[name] = space rewrites the keeper's subspace map entry
 //@   ensures [rejected] res.Code != 0 ==> unchanged(gov)
@@ -40,6 +43,8 @@ package keeper
 //@
 //@ func (k Keeper) HandleUpgrade(ctx sdk.Ctx, aclKey string, paramValue interface{}, owner sdk.Address) (res sdk.Result)
 //@   props C17 C11
+//@   panics_keep gov., auth.
+//@   panics_declared
 //@   requires len(owner) == 20
 //@   modifies gov.pval, gov.acl, gov.daoowner, Hm_Str_S_types_Subspace_v, Hmp_Str_S_types_Subspace_v   // k.spaces[name] = space rewrites the keeper's subspace map entry
 //@   ensures [rejected] res.Code != 0 ==> unchanged(gov)
@@ -49,6 +54,9 @@ package keeper
 // C17/C02: DAO funds move only on a message from the DAO owner, by exactly the stated amount, not beyond the balance
 //@ func (k Keeper) DAOTransferFrom(ctx sdk.Ctx, owner, to sdk.Address, amount sdk.Int) (res sdk.Result)
 //@   props C17 C02 C11
+//@   panics_keep gov., auth.
+//@   panics_declared
+//@   panics when owner == gov.daoowner && (val(amount) < 0 || !denom_ok("upokt"))      // NewCoin, after the owner check, before any write
 //@   uses bankinv
 //@   requires len(owner) == 20 && to != modaddr("dao")
 //@   modifies acct.id, acct.next, acct.coins, acct.addr, auth.bal[modaddr("dao")], auth.has[modaddr("dao")], auth.bal[to], auth.has[to]
@@ -60,6 +68,9 @@ package keeper
 //@
 //@ func (k Keeper) DAOBurn(ctx sdk.Ctx, owner sdk.Address, amount sdk.Int) (res sdk.Result)
 //@   props C17 C02 C11
+//@   panics_keep gov., auth.
+//@   panics_declared
+//@   panics when owner == gov.daoowner && (val(amount) < 0 || !denom_ok("upokt"))      // NewCoin, after the owner check, before any write
 //@   uses bankinv
 //@   requires len(owner) == 20
 //@   modifies acct.id, acct.next, acct.coins, acct.addr, auth.bal[modaddr("dao")], auth.has[modaddr("dao")], auth.supply
